@@ -114,6 +114,18 @@ func (n *btNode) full(sb *strings.Builder, keep map[string]bool) {
 	}
 }
 
+// every node keyed by page id, as its full serialised subtree
+func (n *btNode) byPgid(out map[string]string) {
+	var sb strings.Builder
+	all := map[string]bool{}
+	n.allPgids(all)
+	n.full(&sb, all)
+	out[n.pgid] = sb.String()
+	for _, c := range n.kids {
+		c.byPgid(out)
+	}
+}
+
 func (n *btNode) allPgids(out map[string]bool) {
 	out[n.pgid] = true
 	for _, c := range n.kids {
@@ -337,6 +349,23 @@ func runBTreeScenario(rep *Report, sc btScenario, tag string) int {
 		// the committed tree WITH the page ids of the pages the commit kept (everything else is a
 		// newly written page, 0): which old pages survive is part of the comparison
 		add("dump", "KEEP:"+btKeep(after, beforeSet))
+		// copy-on-write (C06): a page of the old tree that the committed tree still references holds
+		// exactly what it held, subtree and all
+		{
+			oldSub, newSub := map[string]string{}, map[string]string{}
+			if bn, _ := parseBT(strings.Fields(before)); bn != nil {
+				bn.byPgid(oldSub)
+			}
+			if an, _ := parseBT(strings.Fields(after)); an != nil {
+				an.byPgid(newSub)
+			}
+			for pg, sub := range newSub {
+				if old, ok := oldSub[pg]; ok && pg != "0" && old != sub {
+					rep.violation("C06", "monitor", "btree-old-page-modified", fmt.Sprintf("tx %d: page %s belongs to the old tree and is still referenced by the committed tree, but its content (or something below it) changed", ti, pg), sc)
+					break
+				}
+			}
+		}
 		// pages of the old tree the transaction freed = old pages that do not survive, each once
 		{
 			surv := map[string]bool{}
